@@ -17,11 +17,12 @@ META = {
     "design_ref": "6 C06",
 }
 
-THEOREMS_FULL = [
+THEOREMS = [
     "C06_init",
     "C06_step",
     "C06_reachable",
     "C06_get",
+    "C06_get_none",
     "C06_request_free",
     "C06_next_free",
     "C06_conflict_noop",
@@ -30,7 +31,6 @@ THEOREMS_FULL = [
     "C06_free_standing_partial",
 ]
 
-THEOREMS = ["C06_stub"]
 KINDS = ["cell", "surface", "material", "transform", "universe"]
 PROBES = list(range(-1, 10))
 ERRS = {"TypeError", "ValueError", "NumberConflictError", "KeyError", "IndexError"}
@@ -163,7 +163,7 @@ def run_impl(case):
     old = signal.signal(signal.SIGALRM, _alarm)
     try:
         for op in case["ops"]:
-            signal.setitimer(signal.ITIMER_REAL, 3.0)
+            signal.setitimer(signal.ITIMER_REAL, 30.0)  # generous: the machine may be heavily loaded
             try:
                 out = do(op)
             except _Hang:
@@ -374,6 +374,12 @@ def run(chk):
             o = st["out"]
             chk.count("out:" + (o["v"] if o["t"] == "err" else o["t"]))
         verdict = judge(case, ri)
+        if verdict is not None:
+            # confirm in this process before reporting (a loaded machine must not produce a verdict)
+            ri = run_impl(case)
+            verdict = judge(case, ri)
+            if verdict is None:
+                chk.count("flaky:violation-not-reproduced")
         judged_upto = len(case["ops"])
         if verdict is not None:
             k, sig = verdict
@@ -395,6 +401,10 @@ def run(chk):
             b = _truncate(rm, judged_upto)
             if a != b:
                 chk.disagreements_checked += 1
+                ri2 = run_impl(case)
+                if _truncate(ri2, judged_upto) == b:
+                    chk.count("flaky:disagreement-not-reproduced")
+                    continue
 
                 def differs(ops, case=case):
                     c = dict(case, ops=ops)
